@@ -10,7 +10,7 @@ ROOT="$(cd "$(dirname "${BASH_SOURCE[0]}")/.." && pwd)"
 LLSIM="$ROOT/sim/target/release/llsim"
 OUT="$ROOT/sim/target/tmp/selftest-$$"
 mkdir -p "$OUT"
-FAMS="K1 K2 K3 K4 K5 K6 K7 K8 K9 KE Q1 Q1open Q1crash Q3 Q5 Q6 Q7 Q9 Q13 Q2 Q4 Q8 QB QM"
+FAMS="K1 K2 K3 K4 K5 K6 K7 K8 K9 KE Q1 Q1open Q1crash Q3 Q5 Q6 Q7 Q9 Q13 Q2 Q4 Q8 QB QM QC"
 PROPS="1,3,4,5,10,13,15,21"
 fail=0
 run_cfg() { # name nshards
